@@ -1649,6 +1649,10 @@ def _str_startswith(ctx, it, obj, o, args, kw):
 
 
 def _str_format(ctx, it, obj, o, args, kw):
+    # template.format(...): a template written in the program text has the fields one sees; a COMPUTED template (built from
+    # data, e.g. a statement's printed form) may hold braces of its own, and format() then raises or reads other arguments
+    if isinstance(o, VPy) and not getattr(o, "literal", False):
+        raise Unsupported("format() of a computed string: braces in the data become format fields")
     return VPy("<formatted>")
 
 
